@@ -25,7 +25,9 @@ EXTENDS Naturals, Sequences, FiniteSets, TLC
 CONSTANTS Targets,     \* shipped loader/dumper classes operations may name
           Users,       \* names of user-defined subclasses
           OpKinds,     \* subset of {"ctor","mctor","repr","mrepr","impl","path","yobj","module"}
-          MaxHist      \* bound on the length of a history
+          MaxHist,     \* bound on the length of a history
+          FreshVals    \* TRUE: step i of a history registers the i-th function/tag (F_i / G_i), a value no earlier step used;
+                       \* FALSE: every step chooses freely among two values (so a value can be registered twice)
 
 VARIABLES defined,     \* set of classes that exist
           ubase,       \* ubase[u] = base class of user class u (or "-")
@@ -48,7 +50,8 @@ ResMixins  == {"BaseResolver", "Resolver"}
 Loaders == {"BaseLoader", "SafeLoader", "FullLoader", "Loader", "UnsafeLoader",
             "CBaseLoader", "CSafeLoader", "CFullLoader", "CUnsafeLoader", "CLoader"}
 Dumpers == {"BaseDumper", "SafeDumper", "Dumper", "CBaseDumper", "CSafeDumper", "CDumper"}
-Shipped == CtorMixins \cup ReprMixins \cup ResMixins \cup Loaders \cup Dumpers
+Mixins  == CtorMixins \cup ReprMixins \cup ResMixins
+Shipped == Mixins \cup Loaders \cup Dumpers
 
 (* bases of the shipped classes, restricted to the classes that carry registries *)
 SBases(c) ==
@@ -204,7 +207,11 @@ Probes(ub, c, e) ==
      THEN [p \in {"rT1", "rT2", "rY1"} |-> Represent(e, CASE p = "rT1" -> "T1" [] p = "rT2" -> "T2" [] OTHER -> "Y1")]
      ELSE <<>>) @@
   (IF "impl" \in Kinds THEN [p \in {"ia", "iE"} |-> Resolve(e, IF p = "ia" THEN "a" ELSE "E")] ELSE <<>>) @@
-  (IF "path" \in Kinds /\ IsLoader(ub, c) THEN [p \in {"pQ1", "pQ2"} |-> PathTag(e, IF p = "pQ1" THEN "Q1" ELSE "Q2")] ELSE <<>>)
+  (IF "path" \in Kinds /\ IsLoader(ub, c) THEN [p \in {"pQ1", "pQ2"} |-> PathTag(e, IF p = "pQ1" THEN "Q1" ELSE "Q2")] ELSE <<>>) @@
+  \* a dumper: a str node at a place for which a path resolver applies no longer resolves to !!str, so its tag is written
+  (IF "path" \in Kinds /\ IsDumper(ub, c)
+     THEN [p \in {"dQ1", "dQ2"} |-> IF PathTag(e, IF p = "dQ1" THEN "Q1" ELSE "Q2") = "BASE" THEN "BASE" ELSE "EXPL"]
+     ELSE <<>>)
 
 \* H prediction of the observable behaviour of every class
 BehOf(ub, df, ef) == [c \in df |-> Probes(ub, c, ef[c])]
@@ -217,6 +224,14 @@ KeysOf(k) == CASE k = "impl" -> {<<"a">>, <<"E">>, <<"a", "E">>, <<"NONE">>}
                [] k = "mctor" -> {"T1", "P", "E"}      \* P is a prefix of the tags T1 and T2, T1 of T1 only
                [] OTHER -> {"T1", "T2", "E"}
 ValsOf(k) == IF k \in {"impl", "path"} THEN {"G1", "G2"} ELSE {"F1", "F2"}
+(* The registries never inspect or compare the registered callables / tags (they are stored and handed back), so a
+   history in which every step registers a value of its own is the most discriminating representative of all the
+   histories that differ from it only in the choice of values: FreshVals = TRUE explores exactly these.  The
+   assumption itself (values are opaque) is exercised by the FreshVals = FALSE configurations. *)
+FN == <<"F1", "F2", "F3", "F4", "F5">>
+GN == <<"G1", "G2", "G3", "G4", "G5">>
+ASSUME MaxHist < Len(FN)
+ValsAt(k, n) == IF FreshVals THEN {IF k \in {"impl", "path"} THEN GN[n] ELSE FN[n]} ELSE ValsOf(k)
 
 \* a call sequence  <<[c, k, key, val], ...>>  applied to both layers
 RECURSIVE LRun(_, _, _)
@@ -239,20 +254,28 @@ TargetsNow == (Targets \cup Users) \cap defined
 
 Add == \E k \in OpKinds \cap AllKinds, c \in TargetsNow :
          /\ HasKind(ubase, c, k)
-         /\ \E key \in KeysOf(k), val \in ValsOf(k) :
+         /\ Len(hist) < MaxHist
+         /\ \E key \in KeysOf(k), val \in ValsAt(k, Len(hist) + 1) :
               Do(<<"add", k, c, key, val>>, << <<c, k, key, val>> >>)
 
-\* yaml.add_*(...) without Loader= : fan-out (__init__.py:272-345)
+\* yaml.add_*(..., Loader=L, Dumper=D)  (__init__.py:271-345): without Loader= the registration fans out to Loader,
+\* FullLoader and UnsafeLoader, with Loader=L it goes to L alone; Dumper defaults to yaml.Dumper.  "-" = argument not given
+\* (the representer helpers have no Loader argument, the constructor helpers no Dumper argument).
 ModuleKey(k) == CASE k = "impl" -> <<"a">> [] k = "path" -> "Q1" [] k = "mctor" -> "P" [] OTHER -> "T1"
-ModuleVal(k) == IF k \in {"impl", "path"} THEN "G1" ELSE "F1"
+ModuleVal(k) == IF FreshVals THEN (IF k \in {"impl", "path"} THEN GN[Len(hist) + 1] ELSE FN[Len(hist) + 1])
+                ELSE IF k \in {"impl", "path"} THEN "G1" ELSE "F1"
+ModuleLoaders(k) == IF k \in {"repr", "mrepr"} THEN {"-"} ELSE {"-"} \cup {x \in TargetsNow : IsLoader(ubase, x)}
+ModuleDumpers(k) == IF k \in {"ctor", "mctor"} THEN {"-"} ELSE {"-"} \cup {x \in TargetsNow : IsDumper(ubase, x)}
 ModuleAdd == /\ "module" \in OpKinds
-             /\ \E k \in OpKinds \cap AllKinds :
+             /\ Len(hist) < MaxHist
+             /\ \E k \in OpKinds \cap AllKinds : \E L \in ModuleLoaders(k), D \in ModuleDumpers(k) :
                   LET key == ModuleKey(k)
                       val == ModuleVal(k)
                       ls == IF k \in {"repr", "mrepr"} THEN <<>>
-                            ELSE << <<"Loader", k, key, val>>, <<"FullLoader", k, key, val>>, <<"UnsafeLoader", k, key, val>> >>
-                      ds == IF k \in {"ctor", "mctor"} THEN <<>> ELSE << <<"Dumper", k, key, val>> >>
-                  IN  Do(<<"module", k, key, val>>, ls \o ds)
+                            ELSE IF L = "-" THEN << <<"Loader", k, key, val>>, <<"FullLoader", k, key, val>>, <<"UnsafeLoader", k, key, val>> >>
+                            ELSE << <<L, k, key, val>> >>
+                      ds == IF k \in {"ctor", "mctor"} THEN <<>> ELSE << <<(IF D = "-" THEN "Dumper" ELSE D), k, key, val>> >>
+                  IN  Do(<<"module", k, key, val, L, D>>, ls \o ds)
 
 \* class Y(yaml.YAMLObject): yaml_tag = ...; yaml_loader = ...; yaml_dumper = ...   (__init__.py:347-361)
 YLoaderChoices == { <<"Loader", "FullLoader", "UnsafeLoader">> } \cup { <<c>> : c \in {x \in TargetsNow : IsLoader(ubase, x)} }
@@ -271,7 +294,8 @@ YSub == /\ "yobj" \in OpKinds
               lds \in YLoaderChoices, d \in {x \in TargetsNow \cup {"Dumper"} : IsDumper(ubase, x)} :
              Do(<<"ysub", tag, lds, d>>, <<>>)
 
-DefineSub == \E u \in Users \ defined, b \in TargetsNow :
+\* a user class derives from a shipped loader/dumper or from a user class (a bare mixin is not a loader or dumper)
+DefineSub == \E u \in Users \ defined, b \in TargetsNow \ Mixins :
                /\ Len(hist) < MaxHist
                /\ defined' = defined \cup {u}
                /\ ubase' = [ubase EXCEPT ![u] = b]
@@ -318,9 +342,12 @@ NoUpward == [][\A d \in defined, k \in Kinds :
 
 SafeClasses == {"SafeLoader", "CSafeLoader", "SafeDumper", "CSafeDumper", "SafeConstructor", "SafeRepresenter",
                 "BaseLoader", "CBaseLoader", "BaseDumper", "CBaseDumper"}
-\* the shipped safe tables change only when a safe class is the explicit target
-SafeUntouched == [][(TouchedBy(last'.calls) \cap SafeClasses = {})
-                     => \A s \in SafeClasses, k \in Kinds :
+\* a registration on a base of a safe class (BaseConstructor, BaseRepresenter, Resolver, BaseResolver) names that
+\* safe class's own lattice: by the rule it takes effect for the safe class as long as that has registered nothing itself
+SafeLattice == UNION {Range(SMroC[s]) : s \in SafeClasses \cap Cls}
+\* the shipped safe tables change only when a class of the safe lattice is the explicit target
+SafeUntouched == [][(TouchedBy(last'.calls) \cap SafeLattice = {})
+                     => \A s \in SafeClasses \cap Cls, k \in Kinds :
                           HasKind(ubase, s, k) => LEffOf(ubase', own', tbl', s, k) = LEff(s, k)]_vars
 
 =============================================================================
